@@ -420,7 +420,13 @@ func (h *c02Harness) proposalTerm(p *types.Proposal) (string, string) {
 func (h *c02Harness) partTerm(height int64, hdr types.PartSetHeader, idx uint32) (string, string) {
 	dec := "None"
 	if e, ok := h.byPSH[string(hdr.Hash)]; ok {
-		dec = "(Some " + vg.App("Build_block", vg.N(e.hid), vg.B(e.valid)) + ")"
+		// validity is what ValidateBlock says against THIS node's state now (a block of another
+		// height is not valid at this one), not what it was when the block was made
+		valid := e.valid
+		if h.cs != nil && h.cs.blockExec != nil {
+			valid = h.cs.blockExec.ValidateBlock(h.cs.state, e.block) == nil
+		}
+		dec = "(Some " + vg.App("Build_block", vg.N(e.hid), vg.B(valid)) + ")"
 	}
 	t := vg.App("IPart", vg.Z(height), h.psh(hdr), vg.N(uint64(idx)), dec)
 	return t, fmt.Sprintf("part{h %d set %s idx %d}", height, h.psh(hdr), idx)
